@@ -16,12 +16,25 @@ def main():
     if '--repo' in sys.argv:
         repo = sys.argv[sys.argv.index('--repo') + 1]
     u = load_unit(name)
-    g = generate(u, repo, vacuity='--vacuity' in sys.argv)
+    falsify = '--falsify' in sys.argv
+    g = generate(u, repo, vacuity='--vacuity' in sys.argv, falsify=falsify)
     keep = '/var/tmp/vx-%s.rs' % name
     for l in g.lost:
         print('LOST', l)
-    res = run_verus(g.text, name, keep=keep)
+    res = run_verus(g.text, name, keep=keep, multiple_errors=(400 if falsify else 8))
     out = parse(res, g, name)
+    if falsify:
+        kinds = ('postcondition', 'loop invariant', 'loop ensures', 'closure postcondition', 'inherited postcondition')
+        want = {k for k, v in g.obligations.items() if v['kind'].startswith(kinds) or '::hint.trait.' in k}
+        got = set(out['failed'])
+        print('falsify: %d clause obligations registered, %d reported failed' % (len(want), len(want & got)))
+        for k in sorted(want - got):
+            print('NOT-REFUTED (mapping hole, unreachable clause or optional item absent):', k)
+        for k in sorted(got - set(g.obligations)):
+            print('UNREGISTERED failure name:', k)
+        for u_ in out['undecided']:
+            print('UNDECIDED', u_)
+        return
     print('status', out['status'], 'verified', out['verified'], 'errors', out['errors'], 'wall %.1fs' % res['wall'], 'obligations', len(g.obligations))
     for u_ in out['undecided']:
         print('UNDECIDED', u_)
